@@ -22,7 +22,8 @@ ASSUMPTIONS = [
     "an added binding is for a further, different OID (a duplicate of a requested OID collapses in multiset's dict by design)",
 ]
 PROBES = ["get_missing", "getnext_end_of_view", "multigetnext_with_eom", "bulk_maxrep_0", "bulk_empty", "set_normalised",
-          "fault_add_binding", "fault_drop_binding", "fault_overlong_bulk", "fault_short_bulk", "v1", "v3_priv", "dup_oids"]
+          "fault_add_binding", "fault_drop_binding", "fault_overlong_bulk", "fault_short_bulk", "v1", "v3_priv", "dup_oids",
+          "usmstats_objects_v3"]
 shrink_lists = [("ops",), ("mib",)]
 FAULTS = ["add", "drop", "overlong", "short"]
 
@@ -42,6 +43,10 @@ def plan_for(tier: str, seed: int, i: int) -> dict:
         if rng.random() < 0.3:
             oid += (rng.choice(gen.BIG_ARCS),)
         mib[oid] = gen.gen_value(rng, kinds=kinds, max_str=80)
+    if rng.random() < 0.15:
+        # the agent's own usmStats counters are ordinary objects; the client special-cases their OIDs in Reports only
+        for k in range(1, 7):
+            mib[(1, 3, 6, 1, 6, 3, 15, 1, 1, k, 0)] = ("c32", rng.randrange(0, 50))
     keys = sorted(mib)
     ops = [scen.gen_simple_op(rng, keys, proto["version"]) for _ in range(rng.randrange(3, 11))]
     fault = None
@@ -219,6 +224,8 @@ def _check_result(k: int, op: dict, req: dict, resp: dict, res: Any, exc: Option
     kind = op["op"]
     excname = type(exc).__name__ if exc else None
     vbs = resp["vbs"]
+    if req.get("version") == 3 and any(tuple(o)[:9] == (1, 3, 6, 1, 6, 3, 15, 1, 1) for o, _ in vbs):
+        probes["usmstats_objects_v3"] = 1
     if resp["es"] != 0:  # v1 noSuchName
         if excname != "NoSuchOID":
             fail(k, "error-status", "agent answered error-status %d, call ended with %s %r" % (resp["es"], excname, res))
